@@ -166,6 +166,8 @@ func genC17(t *rapid.T) *C17Case {
 				sub.Groups = append(sub.Groups, sub2)
 			}
 			gr.Groups = append(gr.Groups, sub)
+			// (a hidden group may contain a group that is not hidden itself)
+			gr.Hidden = rapid.IntRange(0, 5).Draw(t, "hiddenOuterGroup") == 0
 		}
 		d.Root.G.Groups = append(d.Root.G.Groups, gr)
 	}
